@@ -339,6 +339,11 @@ fn stale_link_message(sb: &Sandbox, proj: &crate::genp::project::Project, cfg: &
         sb.write(&f, &b);
     }
     let pk = &layout.pkgs[&proj.pkgs[leaf].name];
+    // the interface of the previous generation stays around in a second directory
+    let leaf_name = proj.pkgs[leaf].name.clone();
+    if let Some(b) = sb.read(&format!("out/{leaf_name}.interface")) {
+        sb.write(&format!("old/{leaf_name}.interface"), &b);
+    }
     let spec = ProcSpec { entropy: ent.next_u64(), readdir: ent.next_u64(), ..Default::default() };
     let r = ops::goml(sb, &spec, ops::pkg_args(sb, "build", pk, &["out".to_string()], "out", &mut ord));
     if r.exit != crate::world::Exit::Ok {
@@ -347,11 +352,37 @@ fn stale_link_message(sb: &Sandbox, proj: &crate::genp::project::Project, cfg: &
     let cores: Vec<String> = order.iter().map(|p| format!("out/{p}.core")).collect();
     let spec = ProcSpec { entropy: ent.next_u64(), readdir: ent.next_u64(), ..Default::default() };
     let r = ops::goml(sb, &spec, ops::link_args(sb, &cores, "out/main.go", &mut ord));
-    Some(match r.exit {
+    let mut msg = match r.exit {
         crate::world::Exit::Ok => "link succeeded".to_string(),
         crate::world::Exit::Err(m) => sb.normalise(&m),
         other => other.class().to_string(),
-    })
+    };
+    // one dependent is rebuilt with two interface directories that both hold an interface of the
+    // edited package (current generation in the first, previous one in the second, given in this
+    // order): which one is used, and hence every byte written, must be the same in every process
+    // — whatever the file-system clock of that process says about the two files
+    if let Some(c) = (0..n).find(|c| proj.pkgs[*c].imports.contains(&leaf)) {
+        let cpk = &layout.pkgs[&proj.pkgs[c].name];
+        let mut args = vec![ops::s("goml"), ops::s("build"), ops::s("--package"), cpk.name.clone(), ops::s("--input")];
+        let mut inputs: Vec<String> = cpk.files.iter().map(|f| sb.path(f)).collect();
+        ord.shuffle(&mut inputs);
+        args.extend(inputs);
+        for d in ["out", "old"] {
+            args.push(ops::s("--interface-path"));
+            args.push(sb.path(d));
+        }
+        args.push(ops::s("--output"));
+        args.push(sb.path(&format!("two/{}", cpk.name)));
+        let spec = ProcSpec { entropy: ent.next_u64(), readdir: ent.next_u64(), ..Default::default() };
+        let r = ops::goml(sb, &spec, args);
+        let written = ["interface", "core"]
+            .iter()
+            .map(|e| sb.read(&format!("two/{}.{e}", cpk.name)).map(|b| sha(sb.normalise(&String::from_utf8_lossy(&b)).as_bytes())[..16].to_string()).unwrap_or_else(|| "-".into()))
+            .collect::<Vec<_>>()
+            .join(",");
+        msg.push_str(&format!(" | rebuild of {} with two interface directories: {} [{}]", cpk.name, r.exit.class(), written));
+    }
+    Some(msg)
 }
 
 struct CaseResult {
